@@ -331,8 +331,77 @@ def z3(chk, repo, tier="quick"):
                 chk.undecided("Z3", kf, c.where, "sign of %s not decided" % _short(d), algebraic=True)
 
 
+# --------------------------------------------------------------------------- endpoints
+def _atom_value(atom, key, val):
+    """truth value of a valuation atom about surface[key] when surface[key] == val (None: unrelated)"""
+    import re
+
+    m = re.match(r"^\(?(?:not )?\w+\[['\"]%s['\"]\] *(==|<=|>=|<|>|!=) *([-0-9.e]+)\)?$" % re.escape(key), atom.strip())
+    if not m:
+        return None
+    op, lit = m.group(1), float(m.group(2))
+    r = {"==": val == lit, "<": val < lit, ">": val > lit, "<=": val <= lit, ">=": val >= lit, "!=": val != lit}[op]
+    return (not r) if atom.strip().lstrip("(").startswith("not ") else r
+
+
+def endpoint_finite(chk, repo, rule="Z6"):
+    chk.rule(rule, "finite at the ends of the documented range of the laminar fraction: for k_lam = 0 and k_lam = 1 the branch of ViscousDrag.compute selected by that value gives a finite friction coefficient (no division by the vanishing transition Reynolds number)", min_decided=2)
+    c = repo.cls(A + "viscous_drag.py", "ViscousDrag")
+    m = component_model(repo, c, domains=(SymX,))
+    f = c.methods.get("compute")
+    for kval in (0.0, 1.0):
+        hit = False
+        for r in m.runs.get("compute", []):
+            if r.final is None or _flag(r.sigma, "with_viscous") is not True:
+                continue
+            ok = True
+            for atom, v in r.sigma.items():
+                if "k_lam" not in atom:
+                    continue
+                tv = _atom_value(atom, "k_lam", kval)
+                if tv is None or tv != v:
+                    ok = False
+            if not ok:
+                continue
+            hit = True
+            t = r.domains["SYMX"].table
+            cd = _assigned(r, f, {"cd"}).get("cd")
+            key = "ViscousDrag cd at k_lam = %g %s" % (kval, sig_txt(r.sigma))
+            if cd is None:
+                chk.undecided(rule, key, c.where, "cd not extracted", algebraic=True)
+                continue
+            ks = [s_ for s_ in cd.free_symbols if s_.name.startswith("cfg:") and "k_lam" in s_.name]
+            pos = {s_: sp.Symbol("w%d" % i, positive=True) for i, s_ in enumerate(sorted(cd.free_symbols - set(ks), key=str))}
+            e = cd.subs(pos)
+            try:
+                v0 = e.subs({k_: sp.Integer(int(kval)) for k_ in ks}) if ks else e
+                v0 = sp.simplify(v0)
+            except Exception:
+                v0 = sp.nan
+            if v0.has(sp.zoo, sp.nan, sp.oo, -sp.oo):
+                chk.violation(rule, key, c.where, "the friction coefficient %s is not finite at the admissible value k_lam = %g (the branch taken for this value divides by the transition Reynolds number Re_c k_lam)" % (_short(cd), kval), algebraic=True)
+            else:
+                chk.ok(rule, key, c.where, "finite: %s" % _short(v0), algebraic=True)
+        if not hit:
+            chk.undecided(rule, "ViscousDrag cd at k_lam = %g" % kval, c.where, "no valuation selected by this value")
+
+
 # --------------------------------------------------------------------------- Z4
 def z4(chk, repo):
+    from ..symx import _Timeout, _with_time_limit
+
+    def guarded():
+        return _z4(chk, repo)
+
+    try:
+        _with_time_limit(120.0, guarded)
+    except _Timeout:
+        pass
+    if not any(i.rule == "Z4" and i.status in ("ok", "violation") for i in chk.instances):
+        chk.undecided("Z4", "WaveDrag", A + "wave_drag.py", "normalisation did not finish within the time limit")
+
+
+def _z4(chk, repo):
     chk.rule("Z4", "WaveDrag: CDw = k 20 (M - Mcrit)^4 exactly when M > Mcrit and the literal 0 otherwise (so value and first three M-derivatives are continuous at Mcrit), Mcrit = MDD - (0.1/80)^(1/3) with the Korn drag-divergence Mach number MDD = ka/c - (t/c)/c^2 - CL/(10 c^3); beyond Mcrit dCDw/dM > 0 and dCDw/dCL > 0", min_decided=4)
     c = repo.cls(A + "wave_drag.py", "WaveDrag")
     m = component_model(repo, c, domains=(SymX,))
@@ -388,7 +457,14 @@ def z4(chk, repo):
         if von is None or voff is None:
             chk.undecided("Z4", kk, c.where, "branch values not extracted", algebraic=True)
             continue
-        r1 = equal(von, 20 * (M - Mc) ** 4, t)
+        # cheap structural route first: von / (M - Mcrit)^4 combines powers of the same base
+        ratio = von / (M - Mc) ** 4
+        if ratio == 20:
+            r1 = True
+        elif ratio.is_number or (ratio.func == sp.Pow and ratio.args[0] == (M - Mc)) or (ratio.func == sp.Mul and any(f.func == sp.Pow and f.args[0] == (M - Mc) or f == (M - Mc) for f in ratio.args) and all(f.is_number or (f.func == sp.Pow and f.args[0] == (M - Mc)) or f == (M - Mc) for f in ratio.args)):
+            r1 = False  # another number or another power of the same excess Mach number
+        else:
+            r1 = equal(von, 20 * (M - Mc) ** 4, t)
         if r1 is True and getattr(voff, "is_zero", False):
             chk.ok("Z4", kk, c.where, "20 (M - Mcrit)^4 beyond Mcrit, literal 0 up to it: C3-continuous at Mcrit", algebraic=True)
         elif r1 is False or not getattr(voff, "is_zero", False):
@@ -446,3 +522,4 @@ def run(chk, repo, tier):
     z3(chk, repo, tier)
     z4(chk, repo)
     i1(chk, repo, only={"TotalDrag"}, rule="Z5", min_decided=1)
+    endpoint_finite(chk, repo, "Z6")
